@@ -212,3 +212,295 @@ def replay(pid, path):
     print('model:', m.get(cid))
     print('impl :', r.get(cid))
     return 0
+
+
+# ---------------------------------------------------------------- history suite (C11-C14, C05)
+
+def run_hist(tier, seed):
+    import hist_cases
+    t0 = time.time()
+    shapes = type_shapes(tier, seed)
+    runner = vlib.build_runner()
+    harness = vlib.build_harness(shapes)
+    tl = cs.type_lines(shapes)
+    lines, meta = hist_cases.generate(shapes, seed, tier)
+    mres = vlib.run_model(runner, tl + lines, shards=16)
+    rres = vlib.run_rust(harness, lines, shards=16)
+    return {'shapes': shapes, 'cases': lines, 'mres': mres, 'rres': rres, 'meta': meta, 'wall': time.time() - t0}
+
+
+def hist_suite(tier, seed):
+    return cached('hist', tier, seed, lambda: run_hist(tier, seed))
+
+
+def split_steps(line):
+    """'cid init=.. | res=.. ...' -> list of kv dicts (one per step) + flags"""
+    body = line.split(' ', 1)[1] if ' ' in line else ''
+    steps = []
+    flags = []
+    for part in body.split(' | '):
+        _, _, kv, fl = vlib.parse_kv('c h ' + part)
+        steps.append(kv)
+        flags.extend(fl)
+    return steps, flags
+
+
+def analyse_hist(pid, suite):
+    import hist_oracles
+    keys = hist_oracles.PROJECTION[pid]
+    viol, disagree = [], []
+    n_steps = 0
+    distinct = set()
+    hist = collections.Counter()
+    samples = []
+    tmap = dict(suite['shapes'])
+    for l in suite['cases']:
+        cid = l.split(' ')[1]
+        sid = l.split(' ')[2]
+        if not hist_oracles.applies(pid, tmap[sid]):
+            continue
+        m, r = suite['mres'].get(cid), suite['rres'].get(cid)
+        if m is None or r is None:
+            disagree.append((cid, l, ['missing result model=%r impl=%r' % (m, r)]))
+            continue
+        ms, _ = split_steps(m)
+        rs, rflags = split_steps(r)
+        d = []
+        if len(ms) != len(rs):
+            d.append('number of executed steps: model=%d impl=%d' % (len(ms), len(rs)))
+        for i, (a, b) in enumerate(zip(ms, rs)):
+            n_steps += 1
+            for k in keys:
+                if k not in a and k not in b:
+                    continue
+                av, bv = a.get(k, '<absent>'), b.get(k, '<absent>')
+                if k == 'buf':
+                    if not vlib.buf_match(av, bv):
+                        d.append('step %d buf: model=%s impl=%s' % (i, av, bv))
+                elif vlib.norm_res(av, 'm') != vlib.norm_res(bv, 'r'):
+                    d.append('step %d %s: model=%s impl=%s' % (i, k, av, bv))
+            hist[b.get('res', b.get('init', '?')).split(':')[0]] += 1
+            distinct.add((sid, b.get('res'), b.get('view'), b.get('buf')))
+        if d:
+            disagree.append((cid, l, d[:6]))
+        if len(samples) < 3 and len(rs) > 3 and cid.endswith('0'):
+            samples.append({'case': l[:400], 'impl': r[:600]})
+        for msg in hist_oracles.ORACLES[pid](tmap[sid], suite['meta'][cid], rs, rflags):
+            viol.append({'what': msg, 'case': l, 'impl': r, 'model': m, 'concrete': True, 'source': 'oracle'})
+    seen = set(v['case'] for v in viol)
+    for cid, l, d in disagree:
+        if l in seen:
+            continue
+        viol.append({'what': 'model and implementation differ (correspondence suite "hist", projection of %s): %s'
+                             % (pid, '; '.join(d)[:700]), 'case': l, 'impl': suite['rres'].get(cid),
+                     'model': suite['mres'].get(cid), 'concrete': False, 'source': 'correspondence'})
+    cov = {
+        'evaluations': n_steps, 'distinct_nontrivial': len(distinct),
+        'rule': 'seeded operation histories (gen/hist_cases.py) on FlatVec / FlatString / FlexVec instantiations of the '
+                'shape corpus; after every step both sides print result, validity, deep read, size(), re-map of the '
+                'first size() bytes and the raw buffer. evaluations = executed steps; distinct = distinct (shape, result, '
+                'view, buffer) observations.',
+        'samples': samples or [{'case': suite['cases'][0][:300]}],
+        'programs': len([1 for s, t in suite['shapes'] if t[0] in ('vec', 'str', 'flex')]),
+        'histories': len(suite['cases']), 'disagreements_checked': len(disagree),
+        'step_result_histogram': dict(hist), 'suite_wall_s': round(suite.get('wall', 0), 1),
+    }
+    return viol, cov
+
+
+def run_property_hist(pid, tier, seed):
+    suite = hist_suite(tier, seed)
+    viol, cov = analyse_hist(pid, suite)
+    return {'violations': viol, 'coverage': cov}
+
+
+# ---------------------------------------------------------------- IO suite (C07-C10)
+
+def run_io(tier, seed):
+    import io_cases
+    t0 = time.time()
+    shapes = type_shapes(tier, seed)
+    runner = vlib.build_runner()
+    harness = vlib.build_harness(shapes)
+    tl = cs.type_lines(shapes)
+    l1, m1 = io_cases.stage1(shapes, seed, tier)
+    r1 = vlib.run_model(runner, tl + l1)
+    lines, meta = io_cases.stage2(shapes, m1, r1, seed, tier)
+    mres = vlib.run_model(runner, tl + lines, shards=16)
+    rres = vlib.run_rust(harness, lines, shards=16)
+    return {'shapes': shapes, 'cases': lines, 'mres': mres, 'rres': rres, 'meta': meta, 'wall': time.time() - t0}
+
+
+def io_suite(tier, seed):
+    return cached('io', tier, seed, lambda: run_io(tier, seed))
+
+
+def io_select(pid, md):
+    if pid == 'C07':
+        return md['kind'] in ('send', 'recv') and not md.get('faults') and 'garbage' not in md
+    if pid == 'C08':
+        return md['kind'] in ('asend', 'arecv', 'sys') and not md.get('faults') and 'garbage' not in md
+    if pid == 'C09':
+        return bool(md.get('faults'))
+    if pid == 'C10':
+        return 'garbage' in md
+    return False
+
+
+def io_kv(line):
+    body = line.split(' ', 1)[1] if ' ' in line else ''
+    kv = {}
+    import re
+    for m in re.finditer(r'(?:^| )([a-z_]+)=(.*?)(?= [a-z_]+=|$)', body):
+        kv[m.group(1)] = m.group(2)
+    return kv
+
+
+def io_oracle(pid, t, md, kv):
+    from oracles import expected_content, parse_sexp, strip_caps
+    import re
+    re_w = re.compile(r'w\d+')
+    out = []
+    want = ['msg:' + expected_content(t, parse_sexp(i) if i.startswith('(') else i) for i in md['inits']]
+    kind = md['kind']
+    if 'HARNESS-ERROR' in str(kv):
+        return ['harness error']
+    if kind in ('recv', 'arecv'):
+        outs = kv.get('r', '').split(';') if kv.get('r') else []
+        if any(o in ('panic', 'hang') for o in outs):
+            out.append('recv did not terminate normally: %s' % [o for o in outs if o in ('panic', 'hang')])
+        msgs = [strip_caps(o) for o in outs if o.startswith('msg:')]
+        if pid in ('C07', 'C08'):
+            exp = want + ['closed'] * (len(outs) - len(want))
+            got = [strip_caps(o) for o in outs]
+            if got != exp:
+                out.append('received %s, sent %s then Closed' % (got[:6], exp[:6]))
+        elif pid == 'C09':
+            if msgs != want[:len(msgs)]:
+                out.append('after read faults the delivered messages %s are not a prefix of the sent ones %s'
+                           % (msgs[:6], want[:6]))
+        elif pid == 'C10':
+            for o in outs:
+                if not (o.startswith('msg:') or o.startswith('parse:') or o.startswith('read:') or o == 'closed'):
+                    out.append('recv outcome %r is none of message / parse error / read error / Closed' % o)
+    elif kind in ('send', 'asend'):
+        outs = kv.get('s', '').split(';') if kv.get('s') else []
+        heads = [o.split('[')[0] for o in outs]
+        if 'hang' in heads:
+            out.append('send did not return within the bounded number of pipe calls')
+        sink = kv.get('sink', '-')
+        slen = 0 if sink == '-' else len(sink) // 2
+        if pid in ('C07', 'C08'):
+            if heads != ['ok'] * len(md['inits']):
+                out.append('sends reported %s' % heads)
+            if slen != len(md['stream']):
+                out.append('the sink holds %d bytes, the messages are %d bytes' % (slen, len(md['stream'])))
+            if kind == 'asend':
+                for o in outs:
+                    evs = o[o.index('[') + 1:-1].split('.') if '[' in o else []
+                    if o.startswith('ok') and (not evs or evs[-1] != 'fo' or any(e.startswith('w') for e in evs[[i for i, e in enumerate(evs) if e[0] == 'w' and e not in ('wp', 'we', 'wz')][-1] + 1:] if e.startswith('w') and e not in ('wp',)) if any(e[0] == 'w' and e not in ('wp', 'we', 'wz') for e in evs) else False):
+                        out.append('a send completed without a final successful flush after its last byte: %s' % o)
+        elif pid == 'C09':
+            # sink = whole messages of the completed sends + at most one partial message with nothing after it
+            sizes = md['sizes']
+            ok_bytes = sum(sizes[i] for i, h in enumerate(heads) if h == 'ok')
+            residual = slen - ok_bytes
+            fails = [i for i, h in enumerate(heads) if h.startswith('io:')]
+            if kind == 'asend':
+                poisoned_at = None
+                total = 0
+                for i, o in enumerate(outs):
+                    evs = o[o.index('[') + 1:-1].split('.') if '[' in o and o[o.index('[') + 1:-1] else []
+                    c = sum(int(e[1:]) for e in evs if re_w.fullmatch(e))
+                    total += c
+                    if poisoned_at is not None and c > 0:
+                        out.append('bytes of message %d reached the sink after a partial message' % i)
+                    if heads[i] == 'ok' and c != sizes[i]:
+                        out.append('send %d reported Ok but handed %d of %d bytes to the pipe' % (i, c, sizes[i]))
+                    if heads[i] != 'ok' and 0 < c < sizes[i] and poisoned_at is None:
+                        poisoned_at = i
+                    if heads[i] != 'ok' and c > sizes[i]:
+                        out.append('send %d handed %d bytes of a %d byte message to the pipe' % (i, c, sizes[i]))
+                if total != slen:
+                    out.append('the sink holds %d bytes, the accepted writes add up to %d' % (slen, total))
+            else:
+                last = None
+                for i in fails:
+                    if all(h == 'panic' for h in heads[i + 1:]):
+                        last = i
+                        break
+                if last is None:
+                    if residual != 0:
+                        out.append('the sink holds %d bytes beyond the completed sends although every failed send was '
+                                   'followed by further traffic: outcomes %s sizes %s' % (residual, heads, sizes))
+                elif not (0 <= residual < sizes[last]):
+                    out.append('the sink is not whole messages plus at most one proper prefix of a message: %d bytes, '
+                               'sizes %s, outcomes %s' % (slen, sizes, heads))
+    elif kind == 'sys':
+        dl = kv.get('delivered', '')
+        got = ['msg:' + strip_caps(x) for x in dl.split(';')] if dl else []
+        if got != want:
+            out.append('delivered %s, sent %s' % (got[:6], want[:6]))
+        if kv.get('recv_end') != 'closed' or kv.get('send_end') != 'ok':
+            out.append('the tasks ended with recv_end=%s send_end=%s' % (kv.get('recv_end'), kv.get('send_end')))
+    return out
+
+
+def analyse_io(pid, suite):
+    viol, disagree = [], []
+    n = 0
+    distinct = set()
+    hist = collections.Counter()
+    samples = []
+    tmap = dict(suite['shapes'])
+    for l in suite['cases']:
+        cid = l.split(' ')[1]
+        md = suite['meta'][cid]
+        if not io_select(pid, md):
+            continue
+        n += 1
+        m, r = suite['mres'].get(cid), suite['rres'].get(cid)
+        if m is None or r is None:
+            disagree.append((cid, l, ['missing result model=%r impl=%r' % (m, r)]))
+            continue
+        mk, rk = io_kv(m), io_kv(r)
+        d = []
+        for k in sorted(set(mk) | set(rk)):
+            av, bv = mk.get(k, '<absent>'), rk.get(k, '<absent>')
+            if k == 'sink':
+                if not vlib.buf_match(av, bv):
+                    d.append('sink: model=%s impl=%s' % (av, bv))
+            elif av != bv:
+                d.append('%s: model=%s impl=%s' % (k, av[:300], bv[:300]))
+        if d:
+            disagree.append((cid, l, d))
+        hist[md['kind']] += 1
+        distinct.add(r.split(' ', 1)[1] if ' ' in r else r)
+        if len(samples) < 4 and n % 211 == 1:
+            samples.append({'case': l[:300], 'impl': r[:300]})
+        for msg in io_oracle(pid, tmap[md['shape']], md, rk):
+            viol.append({'what': msg, 'case': l, 'impl': r, 'model': m, 'concrete': True, 'source': 'oracle'})
+    seen = set(v['case'] for v in viol)
+    for cid, l, d in disagree:
+        if l in seen:
+            continue
+        viol.append({'what': 'model and implementation differ (correspondence suite "io", cases of %s): %s'
+                             % (pid, '; '.join(d)[:700]), 'case': l, 'impl': suite['rres'].get(cid),
+                     'model': suite['mres'].get(cid), 'concrete': False, 'source': 'correspondence'})
+    cov = {
+        'evaluations': n, 'distinct_nontrivial': len(distinct),
+        'rule': 'scripted-pipe cases (gen/io_cases.py, notes/io-protocol.md): the real Sender / Receiver (blocking and '
+                'async) over pipes that follow a per-call directive script (chunk sizes, Ok(0), io errors, Pending), and '
+                'the composed sender || bounded ring || receiver system under a poll schedule; distinct = distinct '
+                'implementation result lines.',
+        'samples': samples or [{'case': suite['cases'][0][:300]}],
+        'programs': len(set(suite['meta'][l.split(' ')[1]]['shape'] for l in suite['cases'])),
+        'disagreements_checked': len(disagree), 'case_kinds': dict(hist), 'suite_wall_s': round(suite.get('wall', 0), 1),
+    }
+    return viol, cov
+
+
+def run_property_io(pid, tier, seed):
+    suite = io_suite(tier, seed)
+    viol, cov = analyse_io(pid, suite)
+    return {'violations': viol, 'coverage': cov}
